@@ -41,6 +41,7 @@ class ExpiryWatch(Monitor):
         Monitor.__init__(self)
         self.events = set()
         self.gap = {}
+        self.w = None
         self.orig = ConnectionBase.__dict__["_recvAppFragment"]
         watch = self
 
@@ -59,8 +60,11 @@ class ExpiryWatch(Monitor):
                         continue
                     if fid != own and fid not in after:
                         silent = watch.gap.get(id(conn), 0.0) > conn.outgoing_timeout
+                        w_ = watch.w
+                        lossless = w_ is not None and not any((d.note or "").startswith(("lost", "drop")) for d in w_.all_sent)
                         watch.events.add("the arrival of a fragment of ANOTHER message expired the context " +
                                          ("right after the link had been silent for longer than the message timeout" if silent else
+                                          "although NO datagram was lost (the missing fragments were still waiting in the sender's queue)" if lossless else
                                           "while datagrams kept arriving (selective loss of the missing fragment for longer than 1 + count/2 s)"))
                     elif fid == own and fid in after and not (held <= after[fid]):
                         watch.events.add("a late fragment of the SAME message found its context expired and started an empty one")
@@ -72,6 +76,7 @@ class ExpiryWatch(Monitor):
     def before_recv(self, w, conn, hdr, datagram):
         # time since this endpoint last heard from its peer, for the datagram now being processed
         self.gap[id(conn)] = (w.vt.now - conn.last_recv_time) if conn.last_recv_time > 0 else 0.0
+        self.w = w
         return None
 
     @staticmethod
@@ -141,12 +146,19 @@ def scenario(params, ch):
             # queued in the same frame behind other messages: the guaranteed message is the LAST of the datagram
             app_send(w, mon, sender, payload(2, 25), "none")
             app_send(w, mon, sender, payload(4, 23), "best")
+        big = None
+        if other == "behind-transfer":
+            # a long guaranteed transfer is queued first; the message under test is sent in the same frame and has to wait its turn
+            big = payload(9, 160 * 1024)
+            app_send(w, mon, sender, big, "retry", tag="g0", api=method)
         e = app_send(w, mon, sender, data, "retry", tag="g", api=method)
         if e is not None:
             ch.flag("send-raises", "%s raises %s" % (api, type(e).__name__), "%s(len %d) raised %r" % (api, size, e))
             return
-        wanted = [data]
-        if other == "frag":
+        wanted = [data] + ([big] if big is not None else [])
+        if other == "behind-transfer":
+            pass
+        elif other == "frag":
             # a second guaranteed fragmented message in flight at the same time: both must arrive
             second = payload(7, max(size, 1600) + 100)
             wanted.append(second)
@@ -210,7 +222,7 @@ def scenario(params, ch):
             w.run(window)
         w.fates = []  # healed
         heal_tick = max([w.tickno] + list(w.blackout.values()) + [h[0] for h in w.blackhole.values()] + [d.release_tick for d in w.net])
-        nfrag = max(1, size // 1000)
+        nfrag = max(1, sum(len(x) for x in wanted) // 1000)
         horizon = heal_tick + int((HORIZON_S + nfrag * 2.0 / 64) / w.dt)
         recv = "s" if sender == "c" else "c"
 
@@ -432,6 +444,10 @@ def params_list(tier):
                     if tier == "quick" and (b[2] != 200 or mtu != 1500):
                         continue
                     out.append((api, size, mtu, ("drop", "delay8"), b, "frag", "cs", 1, 10))
+    # the message is queued behind a long guaranteed transfer (no faults at all): whatever order the fragments leave in, it arrives
+    for api in ("c.send_guaranteed", "s.send_guaranteed"):
+        for size in ((2049, 2148, 3172) if tier == "quick" else (1435, 2049, 2148, 2500, 3172, 4200, 5000)):
+            out.append((api, size, 1500, (), None, "behind-transfer", "cs|dt50", 1, 8))
     # a second client of the same server exchanges traffic of every kind all the time
     for api in APIS:
         for size in ((40, 2500) if tier == "quick" else (0, 40, 1434, 1435, 2500, 5000)):
